@@ -259,6 +259,12 @@ func (sdb *DbSqlite) reset() error {
 // verifyNodeHashes recursively verifies all the hash values for all nodes
 // this walks to the bottom of the tree, and then works its way back up
 func (sdb *DbSqlite) verifyNodeHashes(fix bool) error {
+	// keep writers out for the whole walk: nodes and their children are read
+	// one query at a time, and a write in between would make a correct hash
+	// look wrong (and, when fixing, replace it with a wrong one)
+	sdb.writeLock.Lock()
+	defer sdb.writeLock.Unlock()
+
 	// must run this in a transaction so we don't get any modifications
 	// while reading child nodes. This may be expensive for a large DB, so
 	// we may want to eventually break this down into transactions for each node
